@@ -418,9 +418,13 @@ class Fn:
     def apply_overlay(self, name):
         """replay the stored line-anchored overlay (contract, loop invariants, proof hints) on the current text."""
         import overlay as _ov
+        import threading
         notes = []
+        self.overlay_name = name
+        self.overlay_trace = []
+        skip = _ov.DROP_OPS.get((threading.get_ident(), name), ())
         try:
-            self.text = _ov.apply(self.text, _ov.load(name), notes)
+            self.text = _ov.apply(self.text, _ov.load(name), notes, self.overlay_trace, skip)
         except _ov.AnchorLost as e:
             self._lost('overlay %s: %s' % (name, e))
         except OSError as e:
